@@ -282,3 +282,4 @@ HARNESSES.append(Harness(
 
 from engine.harness import borrowed  # noqa: E402
 HARNESSES.append(borrowed("c02", "H02-worker", "H06-worker-outcomes"))   # every outcome of a recurring job's iteration ends in a report to the broker
+HARNESSES.append(borrowed("c05", "H05-job-deferred", "H06-first-run"))           # the first run honours deferred_until, also after a look through the delayed category
